@@ -10,5 +10,5 @@ CONSTANTS
     Bug = {}
 SPECIFICATION Spec
 INVARIANTS Pairing NothingAfterClose Released NoStuckCaller SlotsLive OneTerminal
-PROPERTIES SealedShrinks ChanCloseScoped
+PROPERTIES SealedShrinks ChanCloseScoped CloseTakesAll
 CHECK_DEADLOCK FALSE
